@@ -39,7 +39,7 @@ def strip_ghost(text):
 def normalise_rustc(toks, ty):
     s = ' '.join(toks)
     s = s.replace('const SIZE : usize = core :: mem :: size_of :: < %s > ( ) ;' % ty, '')
-    s = re.sub(r'(?<![A-Za-z0-9_])SIZE(?![A-Za-z0-9_])', str(WIDTH[ty]), s)
+    s = re.sub(r'(?<![A-Za-z0-9_])SIZE(?![A-Za-z0-9_])', '%dusize' % WIDTH[ty], s)     # the extractor folds SIZE to a typed literal
     for o in ('le', 'be'):
         s = s.replace('< %s > :: from_%s_bytes (' % (ty, o), 'crate :: vp :: shim_%s_from_%s_bytes (' % (ty, o))
     return s.split()
